@@ -39,7 +39,7 @@ def mcseq(model, maxseq, p, **kw):
 
 PLANS["C04"] = {
     "props": ["C04"], "ops": ["draw"],
-    "mc": [mc("C04", geoms("GQuick", "GThorough"), ports({"api": 1, "chars": 4}, {"api": 1, "chars": 2, "bytes": 3}),
+    "mc": [mc("C04", geoms("GQuick", "GThorough"), ports({"api": 1, "chars": 6}, {"api": 1, "chars": 2, "bytes": 3}),
               textlen={"quick": 2, "thorough": 3}, disp=True)],
     "gen": [walk("C04", 160, 4000), walk("C04", 80, 2000, port="chars"), walk("C04", 8, 200, geom="large", steps=60)],
     "rule": "MC: every text of length <= 2 (thorough: 3) over {narrow, wide, combining, ZWSP, NUL, DEL, >U+00FF} from filled / sparse / "
@@ -180,10 +180,10 @@ PLANS["C09"] = {
 }
 PLANS["C01"] = {
     "props": ["C01"], "ops": [],
-    "mc": [mcseq("C13seq", {"quick": 3, "thorough": 4}, ports({"api": 2}, {"api": 1}), disp=True), mcseq("C16seq", {"quick": 3, "thorough": 3}, ports({"api": 3}, {"api": 1}), disp=True), mcseq("C14seq", {"quick": 3, "thorough": 3}, ports({"api": 2}, {"api": 1})),
+    "mc": [mcseq("C13seq", {"quick": 3, "thorough": 4}, ports({"api": 3}, {"api": 1}), disp=True), mcseq("C16seq", {"quick": 3, "thorough": 3}, ports({"api": 5}, {"api": 1}), disp=True), mcseq("C14seq", {"quick": 3, "thorough": 3}, ports({"api": 3}, {"api": 1})),
            mc("C05", geoms("GTiny", "GQuick"), ports({"api": 3, "chars": 3}, {"api": 1, "chars": 1})),
-           mc("C04", geoms("GTiny", "GQuick"), ports({"api": 3, "chars": 7}, {"api": 1, "chars": 2}), disp=True),
-           mc("C06", geoms("GRowsQuick", "GRows"), ports({"api": 5, "chars": 7}, {"api": 1, "chars": 2}), disp=True),
+           mc("C04", geoms("GTiny", "GQuick"), ports({"api": 5, "chars": 11}, {"api": 1, "chars": 2}), disp=True),
+           mc("C06", geoms("GRowsQuick", "GRows"), ports({"api": 7, "chars": 11}, {"api": 1, "chars": 2}), disp=True),
            mc("C07", geoms("GRowsQuick", "GRows"), ports({"api": 3, "chars": 5}, {"api": 1, "chars": 2})),
            mc("C13", geoms("GCols", "GCols"), ports({"api": 1, "chars": 2}, ALLP), disp=True),
            mc("C12", geoms("GSmall", "GSmall"), ports({"api": 1, "chars": 1}, ALLP)),
